@@ -94,6 +94,8 @@ def smap_rule(chk: Check, ctx: Any, rule: str) -> None:
             "swap-halves": {o: (i + len(universe) // 2) % len(universe) + 1 for i, o in enumerate(universe)},
             "empty": {},
         }
+        if rets:
+            mappings["return-op-to-zero"] = {o: (0 if o == rets[0] else i + 1) for i, o in enumerate(universe)}
         for mname, mp in mappings.items():
             key = f"smap:{name}:rewrite:{mname}"
             n += 1
@@ -103,6 +105,7 @@ def smap_rule(chk: Check, ctx: Any, rule: str) -> None:
                 before_m = dict(fresh.attrs["_mappings_macros"])
                 before_ret = {k: e.attrs.get("return_addr") for k, e in before_m.items()}
                 before_marks = _dump(I, fresh.attrs["_position_marks"]), _dump(I, fresh.attrs["_position_marks_macro"])
+                I.call_func(ser, [fresh], {})  # a map that was serialised before it is rewritten (history)
                 I.call_func(rew, [fresh, dict(mp)], {})
                 after_d, after_m = fresh.attrs["_mappings"], fresh.attrs["_mappings_macros"]
                 problems = []
@@ -127,6 +130,10 @@ def smap_rule(chk: Check, ctx: Any, rule: str) -> None:
                             break
                 if (_dump(I, fresh.attrs["_position_marks"]), _dump(I, fresh.attrs["_position_marks_macro"])) != before_marks:
                     problems.append("position marks changed")
+                again = I.call_func(des, [ClassVal(smc), I.call_func(ser, [fresh], {})], {})
+                if _dump(I, {k: v for k, v in again.attrs.items() if k.startswith("_mappings") or k.startswith("_position")}) != \
+                        _dump(I, {k: v for k, v in fresh.attrs.items() if k.startswith("_mappings") or k.startswith("_position")}):
+                    problems.append("serialising the rewritten map does not describe the rewritten map (it reads back differently)")
                 chk.decide(rule, key, not problems, rew, f"map `{name}`, mapping `{mname}` {mp if len(mp) < 12 else ''}: " + "; ".join(problems[:2]),
                            "entries and return addresses follow their ops; only entries of absent ops are removed")
             except PyExc as e:
